@@ -642,7 +642,7 @@ func (in *Interp) callFunction(fn *ssa.Function, args []Value, env []Value, site
 	if h, ok := in.Intrinsics[fn.Name()]; ok && in.isRT(fn) {
 		return h(in, args, site)
 	}
-	if target, ok := in.Redirect[name]; ok {
+	if target, ok := in.Redirect[name]; ok && !in.calledFrom(target) {
 		f := in.findHarnessFunc(fn, target)
 		if f == nil {
 			in.unmodelled("redirect target " + target + " not found")
@@ -704,6 +704,15 @@ func (in *Interp) callFunction(fn *ssa.Function, args []Value, env []Value, site
 		}
 	}
 	return res
+}
+
+// calledFrom reports whether the innermost frame runs the named function (a
+// stub may call the function it stands in for).
+func (in *Interp) calledFrom(name string) bool {
+	if n := len(in.stack); n > 0 {
+		return in.stack[n-1].fn.Name() == name
+	}
+	return false
 }
 
 func (in *Interp) isRT(fn *ssa.Function) bool {
